@@ -359,11 +359,11 @@ func genC08(c *h.Ctx) {
 		c.Add(fmt.Sprintf("range %s %d %d", dTok(h.RandomDouble(r, bd)), r.Intn(12), r.Intn(2)), "range:random")
 	}
 	// 3. histories
-	for i := 0; i < c.N(30000, 1500000); i++ {
+	for i := 0; i < c.N(30000, 600000); i++ {
 		genHistory(c)
 	}
 	// 4. length scenarios: non-configurable elements, non-writable length, then length changes
-	for i := 0; i < c.N(6000, 300000); i++ {
+	for i := 0; i < c.N(6000, 150000); i++ {
 		genLengthScenario(c)
 	}
 }
@@ -493,6 +493,21 @@ func genHistory(c *h.Ctx) {
 			w, e, cc := tri(), tri(), tri()
 			if v == "-" && w == "-" {
 				w = "0" // generic descriptors belong to C07
+			}
+			if key != "length" && !isCanon(key) {
+				// A stored mode with "not set" trits is replayed as a descriptor by put/freeze/seal; for a
+				// non-canonical numeral that descriptor lands on a different property, which the model's
+				// Boolean storage does not reproduce: such keys get complete descriptors only.
+				if v == "-" {
+					v = genElem(r)
+				}
+				fix := func(t string) string {
+					if t == "-" {
+						return "0"
+					}
+					return t
+				}
+				w, e, cc = fix(w), fix(e), fix(cc)
 			}
 			st = "def/" + kTok(key) + "/" + v + "/" + w + "/" + e + "/" + cc
 			keys = append(keys, "step:def")
